@@ -50,7 +50,7 @@ func encVariant(v *variants.Variant) string {
 		return "b0"
 	case variants.DateTime:
 		t := v.AsDateTime()
-		return fmt.Sprintf("t%d.%d", t.Unix(), t.Nanosecond())
+		return encTime(t)
 	case variants.TimeSpan:
 		return fmt.Sprintf("p%d", int64(v.AsTimeSpan()))
 	case variants.Array:
